@@ -36,6 +36,9 @@ pub struct IoPlan {
     /// Benign: the monotonic clock jumps forward (a stalled machine, a suspended process): seed; on
     /// average every 40th reading of the clock by a managed thread adds 0.3 .. 3.3 s.
     pub clock_jumps: Option<u64>,
+    /// The stop event (the store the signal handler performs) happens when this many input bytes have been
+    /// delivered through the pipe seam - also while a thread computes between two decision points.
+    pub stop_at_input_byte: Option<u64>,
 }
 
 #[derive(Debug, Default, Clone)]
@@ -287,7 +290,12 @@ pub fn on_read(fd: i32, buf: &mut [u8], is_input_file: bool, file_pos: Option<u6
         }
         st.stdin_pos += n;
         st.counters.input_bytes += n as u64;
-        INPUT_TOTAL.fetch_add(n as u64, std::sync::atomic::Ordering::SeqCst);
+        let before = INPUT_TOTAL.fetch_add(n as u64, std::sync::atomic::Ordering::SeqCst);
+        if let Some(k) = st.plan.stop_at_input_byte {
+            if before < k && before + n as u64 >= k {
+                crate::sched::inject_stop_now();
+            }
+        }
         return ReadAction::Done(n);
     }
     if is_input_file {
